@@ -1,22 +1,22 @@
 ------------------------------ MODULE MC_Store ------------------------------
 (***************************************************************************)
-(* The Store model explored exhaustively for ONE store kind per TLC run;   *)
-(* the parameters come from the environment (checks/c20.py):               *)
-(*   C20_KIND file|mem|redis, C20_SHAPE dict|list, C20_NCLIENTS, C20_CAP,  *)
-(*   C20_MAXLEN, C20_MAXINFL, C20_WRITER2 (0|1), C20_LITE (0|1)             *)
+(* The Store model explored exhaustively for every store kind in ONE TLC   *)
+(* run: the parameter records come from a JSON file written by             *)
+(* checks/c20.py (environment variable C20_CONFIGS: {"configs": [P, ...]}),*)
+(* the initial states are one per configuration and `cf` (which never      *)
+(* changes) says which one a state belongs to, so the state graph is the   *)
+(* disjoint union of the graphs of the kinds.                              *)
 (* The state holds no history and no observation variable (results are     *)
 (* functions of the pre-state), so every distinct state is a distinct      *)
 (* store situation.  Action parameters range over constant sets so that    *)
-(* `-dump dot,actionlabels` writes them into the edge labels (action ASet = operation Set, ...). *)
+(* `-dump dot,actionlabels` writes them into the edge labels.              *)
 (***************************************************************************)
-EXTENDS Store, IOUtils
+EXTENDS Store, Json, IOUtils
 
-Num(str) == CHOOSE n \in 0..99 : ToString(n) = str
-P == [kind |-> IOEnv.C20_KIND, shape |-> IOEnv.C20_SHAPE, nclients |-> Num(IOEnv.C20_NCLIENTS),
-      cap |-> Num(IOEnv.C20_CAP), maxlen |-> Num(IOEnv.C20_MAXLEN), maxinfl |-> Num(IOEnv.C20_MAXINFL),
-      ttl |-> 60, writer2 |-> (IOEnv.C20_WRITER2 = "1"), lite |-> (IOEnv.C20_LITE = "1")]
+Cfgs == JsonDeserialize(IOEnv.C20_CONFIGS).configs
 
-VARIABLE st
+VARIABLES st, cf
+P == Cfgs[cf]
 CS == {1, 2}
 
 Op(name, c, k, f, v) == [op |-> name, c |-> c, k |-> k, f |-> f, v |-> v]
@@ -26,7 +26,7 @@ TransOK(o, t) == /\ WriteReadBack(P, st, o, t)
 (* the transition clauses are asserted on every explored transition (a failure stops TLC) *)
 Do(o) == /\ Enabled(P, st, o)
          /\ LET t == Step(P, st, o)
-            IN Assert(TransOK(o, t), <<"a transition clause of Store fails", o, st>>) /\ st' = t
+            IN Assert(TransOK(o, t), <<"a transition clause of Store fails", o, st>>) /\ st' = t /\ cf' = cf
 
 ASet(c, k, i) == Do(Op("Set", c, k, "", i))
 ANestedSet(c, k, f, x) == Do(Op("NestedSet", c, k, f, x))
@@ -41,7 +41,7 @@ ASetTtl(c, k) == Do(Op("SetTtl", c, k, "", 0))
 ADeliverInvalidation(c) == Do(Op("DeliverInvalidation", c, "", "", 0))
 AReopen(c) == Do(Op("Reopen", c, "", "", 0))
 
-MCInit == st = Init(P)
+MCInit == cf \in 1..Len(Cfgs) /\ st = Init(P)
 MCNext ==
     \/ \E c \in CS, k \in Keys, i \in 1..3 : ASet(c, k, i)
     \/ \E c \in CS, k \in Keys, f \in Fields, x \in Scalars : ANestedSet(c, k, f, x)
@@ -55,7 +55,7 @@ MCNext ==
     \/ \E c \in CS, k \in Keys : ASetTtl(c, k)
     \/ \E c \in CS : ADeliverInvalidation(c)
     \/ \E c \in CS : AReopen(c)
-Spec == MCInit /\ [][MCNext]_st
+Spec == MCInit /\ [][MCNext]_<<st, cf>>
 
 InvRefinesMapping == StoreRefinesMapping(P, st)
 InvCacheCoherent == CacheCoherent(P, st)
